@@ -138,6 +138,6 @@ CHECKS = {
     text=("Generated hierarchies (Wishbone decoder over SRAMs / Wishbone-CSR bridges / nested decoders, or a CSR decoder root; CSR subtrees of decoders, register bridges with "
           "Builder scopes, multiplexers over unaligned mock registers, event monitors, GPIO) are simulated; for every root address reads and writes with full and random "
           "select masks are issued and leaf strobes, lane data, w_data, SRAM contents, acknowledge/no-acknowledge are compared with what the root memory map reports."),
-    note=("Bounded exploration (root address space <= 256 granules quick / 4096 thorough). Non-first-chunk read data and w_data masks use conservative validity tracking. "
+    note=("Bounded exploration (root address space <= 256 granules quick / 2048 thorough). Non-first-chunk read data and w_data masks use conservative validity tracking. "
           "Trusts the simulator.")),
 }
